@@ -818,6 +818,7 @@ func audioSplitRule(c *Ctx, fnName string) int {
 		// a single loop that also emits the final, shorter fragment: which iteration is the last is not a
 		// linear fact; the fragment <= MTU contract of C08 still applies
 		r.Infof("%s: all fragments are appended inside the loop; the clause 'every non-final fragment has length mtu' is not decided for this form", fnName)
+		n++ // the construct was recognised: it counts for the vacuity floor
 	}
 	add("no fragment is emitted when mtu == 0", posMtu.ok && posMtu.seen >= 2, posMtu.detail)
 	// ---- cursor discipline of the slice-cursor idiom (payload = payload[mtu:]); when the function is
@@ -906,8 +907,37 @@ func opusRules(c *Ctx) int {
 	want := []string{"(len(packet) == 0:int)", "(packet == nil:[]byte)"}
 	got := strings.Join(errGuards, " ; ")
 	okG := len(errGuards) == 2 && strings.Contains(got, "== nil") && (strings.Contains(got, "== 0:int") || strings.Contains(got, "< 1:int"))
+	// the same clause as a contract on the returns (independent of how the guards are written, helpers
+	// included): an error return implies len(packet) == 0, a success return implies len(packet) >= 1
+	nErr, nOK, undec, cBad := 0, 0, 0, ""
+	hooks := &bounds.Hooks{AtReturn: func(h *bounds.Helper, f *ssa.Function, ret *ssa.Return, d *bounds.Disjunct) {
+		if f != fn || len(ret.Results) != 2 {
+			return
+		}
+		isNil, known := d.IsNilKnown(ret.Results[1])
+		l := d.Len(pkt)
+		switch {
+		case !known || l == nil:
+			undec++
+		case isNil:
+			nOK++
+			if !d.Entails(lin.GE(l, lin.Const(1))) && cBad == "" {
+				cBad = "the success return at " + p.Position(ret.Pos()) + " is reached with a payload that may be empty"
+			}
+		default:
+			nErr++
+			if !d.Entails(lin.EQ(l, lin.Const(0))...) && cBad == "" {
+				cBad = "the error return at " + p.Position(ret.Pos()) + " is reached with a payload that may be non-empty"
+			}
+		}
+	}}
+	bounds.New(p, bounds.Config{K: 32, MaxDepth: 4, RetCap: 8}, hooks).AnalyzeEntry(fn)
 	n++
-	r.Add("STRUCT.opus", fnName, "rejects exactly nil and empty payloads", p.Position(fn.Pos()), okG, "error guards: "+got+" ; expected "+strings.Join(want, " ; "))
+	if undec == 0 && nErr > 0 && nOK > 0 {
+		r.Add("STRUCT.opus", fnName, "rejects exactly nil and empty payloads", p.Position(fn.Pos()), cBad == "", cBad)
+	} else {
+		r.Add("STRUCT.opus", fnName, "rejects exactly nil and empty payloads", p.Position(fn.Pos()), okG, "error guards: "+got+" ; expected "+strings.Join(want, " ; "))
+	}
 	// mixin
 	for _, mn := range []string{"codecs.(*audioDepacketizer).IsPartitionHead", "codecs.(*audioDepacketizer).IsPartitionTail"} {
 		f := p.Func(mn)
